@@ -132,7 +132,19 @@ pub fn token_of(m: &Item) -> usize {
 pub enum Dir {
     C, // to server
     S, // to client
-    E, // either
+    /// ChangeCipherSpec steps the code accepts from both peers: the flow has the CLIENT send it
+    /// (`Ce`) or the SERVER (`Se`, resumption); from the other peer the statement - whose direction
+    /// clause is about handshake messages - does not decide, and either answer is taken
+    Ce,
+    Se,
+}
+
+#[derive(Clone, Copy, PartialEq)]
+pub enum Want {
+    Accept(usize),
+    Reject,
+    /// the statement does not decide this step: follow the implementation (next state if accepted)
+    Either(usize),
 }
 
 /// The documented flows (DESIGN §3.C08), as edges (state, direction, token, next state).
@@ -149,30 +161,30 @@ fn grammar() -> Vec<(usize, Dir, usize, usize)> {
         e("CertificateSt", S, "server_key_exchange", "ServerKeyExchange"),
         e("ServerKeyExchange", S, "server_done", "ServerHelloDone"),
         e("ServerHelloDone", C, "client_key_exchange", "ClientKeyExchange"),
-        e("ClientKeyExchange", E, "ccs", "ClientChangeCipherSpec"),
+        e("ClientKeyExchange", Ce, "ccs", "ClientChangeCipherSpec"),
         // key exchange without ServerKeyExchange
         e("Certificate", S, "server_done", "PskHelloDone"),
         e("PskHelloDone", C, "client_key_exchange", "PskCKE"),
-        e("PskCKE", E, "ccs", "ClientChangeCipherSpec"),
+        e("PskCKE", Ce, "ccs", "ClientChangeCipherSpec"),
         // client-certificate request
         e("Certificate", S, "certificate_request", "CRCertRequest"),
         e("ServerKeyExchange", S, "certificate_request", "CRCertRequest"),
         e("CRCertRequest", S, "server_done", "CRHelloDone"),
         e("CRHelloDone", C, "certificate", "CRCert"),
         e("CRCert", C, "client_key_exchange", "CRClientKeyExchange"),
-        e("CRClientKeyExchange", E, "ccs", "ClientChangeCipherSpec"),
+        e("CRClientKeyExchange", Ce, "ccs", "ClientChangeCipherSpec"),
         e("CRClientKeyExchange", C, "certificate_verify", "CRCertVerify"),
-        e("CRCertVerify", E, "ccs", "ClientChangeCipherSpec"),
+        e("CRCertVerify", Ce, "ccs", "ClientChangeCipherSpec"),
         // anonymous server
         e("ServerHello", S, "server_key_exchange", "NoCertSKE"),
         e("NoCertSKE", S, "server_done", "NoCertHelloDone"),
         e("NoCertHelloDone", C, "client_key_exchange", "NoCertCKE"),
-        e("NoCertCKE", E, "ccs", "ClientChangeCipherSpec"),
+        e("NoCertCKE", Ce, "ccs", "ClientChangeCipherSpec"),
         // resumption, 0-RTT CCS, fallback to a full handshake
         e("None", C, "client_hello+sid", "AskResumeSession"),
         e("AskResumeSession", C, "ccs", "AskResumeSession"),
         e("AskResumeSession", S, "server_hello", "ResumeSession"),
-        e("ResumeSession", E, "ccs", "ClientChangeCipherSpec"),
+        e("ResumeSession", Se, "ccs", "ClientChangeCipherSpec"),
         e("ResumeSession", S, "certificate", "Certificate"),
         // TLS 1.3 draft-18 1-RTT
         e("ClientHello", S, "server_hello_d18", "ClientChangeCipherSpec"),
@@ -182,42 +194,66 @@ fn grammar() -> Vec<(usize, Dir, usize, usize)> {
     ]
 }
 
-/// Reference flow acceptor: Some(next) = accepted, None = InvalidTransition.
-pub fn accept(edges: &[(usize, Dir, usize, usize)], state: usize, token: usize, to_server: bool) -> Option<usize> {
+/// Reference flow acceptor.
+pub fn accept(edges: &[(usize, Dir, usize, usize)], state: usize, token: usize, to_server: bool) -> Want {
     let s = STATES[state];
     // absorbing states first
     if s == "Invalid" {
-        return Some(state);
+        return Want::Accept(state);
     }
     if s == "SessionEncrypted" {
-        return Some(state);
+        return Want::Accept(state);
     }
     if s == "Finished" {
-        return Some(st("Invalid"));
+        return Want::Accept(st("Invalid"));
     }
     let t = TOKENS[token];
     if t == "hello_request" {
-        return if s == "None" { None } else { Some(state) };
+        // "ignored in every state except None" - but a HelloRequest only ever comes from the server
+        // ("each handshake message only from the peer that sends it"): for one sent by the client
+        // the two clauses collide, and either answer is taken
+        return if s == "None" {
+            Want::Reject
+        } else if to_server {
+            Want::Either(state)
+        } else {
+            Want::Accept(state)
+        };
     }
     if t == "alert(warning)" {
-        return Some(state);
+        return Want::Accept(state);
     }
     if t == "alert(other)" {
-        return Some(st("Finished"));
+        return Want::Accept(st("Finished"));
     }
+    let mut either = None;
     for (a, d, k, b) in edges {
         if *a == state && *k == token {
             let ok = match d {
                 Dir::C => to_server,
                 Dir::S => !to_server,
-                Dir::E => true,
+                Dir::Ce => {
+                    if !to_server {
+                        either = Some(*b);
+                    }
+                    to_server
+                }
+                Dir::Se => {
+                    if to_server {
+                        either = Some(*b);
+                    }
+                    !to_server
+                }
             };
             if ok {
-                return Some(*b);
+                return Want::Accept(*b);
             }
         }
     }
-    None
+    match either {
+        Some(b) => Want::Either(b),
+        None => Want::Reject,
+    }
 }
 
 // ------------------------------------------------------------------ Phase A
@@ -294,7 +330,8 @@ pub fn generate(rng: &mut Rng, _prop: Prop) -> Scenario {
         let to_server = match e.1 {
             Dir::C => true,
             Dir::S => false,
-            Dir::E => rng.chance(1, 2),
+            Dir::Ce => !rng.chance(1, 4),
+            Dir::Se => rng.chance(1, 4),
         };
         script.push((to_server, e.2));
         state = e.3;
@@ -510,6 +547,18 @@ fn do_step(ctx: &mut Ctx, edges: &[(usize, Dir, usize, usize)], st: &mut Track, 
     *steps += 1;
     let sig = format!("flow/{}/{}/{}", STATES[model_before], if to_server { "to_server" } else { "to_client" }, TOKENS[token]);
     let who = if to_server { "from the client" } else { "from the server" };
+    let want = match (want, &got) {
+        (Want::Either(m2), Ok(_)) => {
+            ctx.count("oracle/steps_the_statement_leaves_open", 1);
+            Some(m2)
+        }
+        (Want::Either(_), Err(_)) => {
+            ctx.count("oracle/steps_the_statement_leaves_open", 1);
+            None
+        }
+        (Want::Accept(m2), _) => Some(m2),
+        (Want::Reject, _) => None,
+    };
     match (&got, want) {
         (Ok(s2), Some(m2)) => {
             // named-state clauses of the statement
